@@ -201,6 +201,8 @@ def cost_family(cid):
     'chi2:nodet' is a cost OBJECT built with add_determinant_cost=False (no identifier exists for it)"""
     if cid == "chi2:nodet":
         return ("chi2", "cov-nodet")
+    if cid == "chi2:axes_y":  # XYCostFunction_Chi2(axes_to_use="y"): covariance of the y sources only (chosen by the caller)
+        return ("chi2", "cov")
     if cid in _CHI2_COV or cid in _CHI2_COV_FAST:
         return ("chi2", "cov")
     if cid in ("chi2_pointwise", "chi2_pointwise_errors"):
